@@ -44,7 +44,7 @@ add(
     "Every floor/ceil/round/offset/range call on the seven calendar units (driver calls and the nested calls the library makes) is "
     "compared online with an independent calendar built on datetime/timedelta/calendar. Every day of 1900-2199 at three instants "
     "is enumerated for floor/ceil/round; every hour of five years; random ms instants incl. round() ties; offsets k=0..400 from "
-    "month-end/leap-day boundaries; ranges with steps 1..12. Held = on the calls observed.",
+    "month-end/leap-day boundaries; ranges with steps 1..12; the calls made under the repository's own tests and under real timeline exports. Held = on the calls observed.",
     "Trusted: oracles/calendar.py and CPython's datetime. Process runs with TZ=UTC (zone independence is C18). Week ranges with "
     "step>1 are judged as subsequences only.",
     "DESIGN.md section 4, C17",
@@ -66,7 +66,7 @@ add(
     "Seeded static cases and 2-10 step histories of domain/range/clamp/nice/copy on a scale and its copies. At every mutator the "
     "monitor re-evaluates every live scale object: it must map the end points of the domain it reports to the range it reports (==) and "
     "no other object's observable signature may change; every evaluation is checked against the exact-rational affine map through the "
-    "reported end points; the driver checks monotonicity, invert round trips and clamping. Held = on the histories played.",
+    "reported end points; the driver checks monotonicity, invert round trips and clamping. The monitor also runs under the repository's own tests (workload R) and under 150 real timeline exports (in situ). Held = on the histories played.",
     "Trusted: oracle arithmetic (fractions.Fraction), tolerances stated in the evidence. Only the default linear interpolator is exercised.",
     "DESIGN.md section 4, C12",
 )
@@ -93,7 +93,7 @@ add(
     "online monitor on every TimeScale evaluation (exact timedelta reference) + driver-side relational checks",
     "Seeded pairs of distinct naive datetimes and ranges; every __call__/invert is judged online against exact rational proportionality on the "
     "domain/range the scale reports, and the driver checks end points, proportionality to the given domain, monotonicity, equal durations, "
-    "1 ms round trip inside the domain and agreement with a LinearScale on oracle-computed epoch milliseconds. Held = on the cases generated.",
+    "1 ms round trip inside the domain (for ranges conditioned well enough for floats to allow it) and agreement with a LinearScale on oracle-computed epoch milliseconds; plus workload R and in-situ exports. Held = on the cases generated.",
     "Trusted: CPython datetime/timedelta arithmetic, fractions. TZ=UTC (C18 covers zones).",
     "DESIGN.md section 4, C15",
 )
@@ -128,7 +128,7 @@ add(
     "non-integer widths, a label wider than the layer, clusters up to 200) are laid out by the real engine; the removeOverlap hook records "
     "chain order, widths, stub flags, monitor-computed targets and final positions of every layer; the oracle checks target order, adjacent "
     "separation (w1+w2)/2+spacing-1 (2-unit spacing between stubs, spacing taken from the ENGINE options) and the chain-implied separation "
-    "of every other pair. Held = on the layers observed.",
+    "of every other pair. 20 % of the cases re-use label objects that another engine laid out before; a further shard judges the layers that real timeline exports create (in situ). Held = on the layers observed.",
     "Trusted: oracles/layout.py (fractions). Non-adjacent stub pairs with nodeSpacing<2 are held to what one-constraint-per-adjacent-pair implies (DESIGN.md C01.O.iii).",
     "DESIGN.md section 4, C01",
 )
@@ -138,7 +138,7 @@ add(
     "For every layer recorded inside the real Force.compute() the unique least-squares optimum is recomputed independently (isotonic "
     "regression of target minus cumulative gaps, clipped to the bounds when the layer fits; targets of deeper layers are the final positions "
     "of the item's own stub, computed by the monitor) and every reported position must lie within 0.5+1e-3 of it; the H1 hook also checks "
-    "that no layer moves after its own solve. Layers that do not fit between both bounds are out of scope. Held = on the layers observed.",
+    "that no layer moves after its own solve. Targets are derived from the layer records (never from the parent pointer the code follows); stale label objects and in-situ export layers are part of the workload. Layers that do not fit between both bounds are out of scope. Held = on the layers observed.",
     "Trusted: oracles/layout.py; the clipping characterisation of box-constrained isotonic regression; 1e-3 covers the 1e10-weight soft walls.",
     "DESIGN.md section 4, C02",
 )
@@ -159,7 +159,7 @@ add(
     "structurally and exactly: each input label in exactly one layer, contiguous layers, a complete parent/child stub chain per label with the "
     "label's position, payload and the configured stub width, no foreign items, the engine reporting exactly this layering (getLayers, "
     "layerIndex), single layer when there is no layer width or the labels fit the density budget, and the per-layer capacity bound of the "
-    "default algorithm. Held = on the layerings observed.",
+    "default algorithm. 30 % of the engine cases re-configure an engine built with other options; layerings of real timeline exports are judged in situ. Held = on the layerings observed.",
     "Trusted: oracles/layering.py. Requirements within 1e-9 (relative) of the budget accept either outcome (the code sums widths in floats).",
     "DESIGN.md section 4, C04",
 )
